@@ -294,6 +294,7 @@ func c01Decoded(spec *gen.MsgSpec, wire []byte, vs []cose.Verifier) error {
 	if n, _ := specCsigStats(spec); n > 0 {
 		stats.Class("roundtrip-with-countersignatures")
 	}
+	classifyCsigParents(spec)
 	if spec.Detached {
 		stats.Class("roundtrip-detached")
 	}
@@ -329,4 +330,152 @@ func TestC01_Random(t *testing.T) {
 		stats.Eval()
 		judge(rt, "c01", c, checkC01)
 	})
+}
+
+// ---------------------------------------------------------------------------
+// hash envelopes
+
+type c01HashCase struct {
+	Key      refcose.KeyMat `json:"key"`
+	ViaKey   bool           `json:"via_key,omitempty"`
+	Prot     rc.Val         `json:"prot"`
+	Unprot   rc.Val         `json:"unprot"`
+	HashAlg  int64          `json:"hash_alg"`
+	Hash     rc.Hex         `json:"hash"`
+	CtyKind  int            `json:"cty_kind"` // 0 none, 1 uint, 2 string
+	CtyUint  uint64         `json:"cty_uint,omitempty"`
+	CtyText  string         `json:"cty_text,omitempty"`
+	Location string         `json:"location,omitempty"`
+}
+
+func hashLen(alg int64) int {
+	switch alg {
+	case -16:
+		return 32
+	case -43:
+		return 48
+	case -44:
+		return 64
+	}
+	return -1
+}
+
+func (c *c01HashCase) payload() cose.HashEnvelopePayload {
+	p := cose.HashEnvelopePayload{HashAlgorithm: cose.Algorithm(c.HashAlg), HashValue: append([]byte{}, c.Hash...), Location: c.Location}
+	switch c.CtyKind {
+	case 1:
+		p.PreimageContentType = c.CtyUint
+	case 2:
+		p.PreimageContentType = c.CtyText
+	}
+	return p
+}
+
+func checkC01Hash(c c01HashCase) error {
+	sg, err := libSigner(c.Key, c.ViaKey)
+	if err != nil {
+		return finding("signer", "%v", err)
+	}
+	ver, err := libVerifier(c.Key, c.ViaKey)
+	if err != nil {
+		return finding("verifier", "%v", err)
+	}
+	h := bridge.Headers(c.Prot, c.Unprot)
+	env, err := cose.SignHashEnvelope(refcose.NewEntropy([]byte("henv")), sg, h, c.payload())
+	if err != nil {
+		stats.Class("sign-refused/" + shortErr(err))
+		return nil
+	}
+	msg, err := cose.VerifyHashEnvelope(ver, env)
+	if err != nil {
+		return finding("henv-verify", "VerifyHashEnvelope refuses SignHashEnvelope's output: %v\nenvelope=%x", err, env)
+	}
+	if !bytes.Equal(msg.Payload, c.Hash) {
+		return finding("henv-payload", "payload %x, want hash %x", msg.Payload, []byte(c.Hash))
+	}
+	// plain Sign1 decode + verify of the same bytes
+	var m cose.Sign1Message
+	if err := m.UnmarshalCBOR(env); err != nil {
+		return finding("roundtrip-decode", "envelope rejected by Sign1Message.UnmarshalCBOR: %v", err)
+	}
+	if err := m.Verify(nil, ver); err != nil {
+		return finding("verify-wire", "envelope does not verify as Sign1: %v", err)
+	}
+	// independent verification
+	e, err := refcose.ParseEnv(refcose.KSign1, env)
+	if err != nil {
+		return finding("ref-parse", "%v", err)
+	}
+	pl, _ := e.PayloadBytes()
+	if !refcose.Verify(c.Key.Alg, c.Key.Public(), refcose.SigStructure1(e.ProtContent(), nil, pl), e.Sig.Content) {
+		return finding("ref-verify", "reference verifier rejects the envelope signature\n%x", env)
+	}
+	stats.Class("hash-envelope")
+	stats.Class("roundtrip-alg/" + refcose.AlgName(c.Key.Alg))
+	stats.NTBytes(env[:len(env)-len(e.Sig.Content)])
+	stats.Sample("hash-envelope", map[string]any{"kind": "hash-envelope", "wire": rc.Hex(env)})
+	return nil
+}
+
+func init() { register("c01hash", checkC01Hash) }
+
+func genHashCase(rt *rapid.T, ho gen.HeaderOpts) c01HashCase {
+	c := c01HashCase{}
+	alg := gen.Alg(rt)
+	c.Key = gen.KeyMat(rt, alg)
+	c.ViaKey = rapid.IntRange(0, 4).Draw(rt, "viakey") == 0
+	ho.NoCty = true
+	if rapid.Bool().Draw(rt, "alg-present") {
+		ho.Alg = &alg
+	}
+	c.Prot, c.Unprot = gen.Headers(rt, ho)
+	c.HashAlg = rapid.SampledFrom([]int64{-16, -43, -44}).Draw(rt, "hashalg")
+	c.Hash = gen.Blob(rt, "hash", hashLen(c.HashAlg))
+	c.CtyKind = rapid.IntRange(0, 2).Draw(rt, "ctykind")
+	switch c.CtyKind {
+	case 1:
+		c.CtyUint = uint64(rapid.SampledFrom([]int64{0, 1, 23, 24, 50, 255, 256, 65535, 65536, 1 << 40}).Draw(rt, "ctyuint"))
+	case 2:
+		c.CtyText = gen.MediaType(rt)
+	}
+	if rapid.Bool().Draw(rt, "has-location") {
+		c.Location = rapid.StringMatching(`https://[a-z]{1,10}\.example/[a-z0-9/]{0,20}`).Draw(rt, "location")
+	}
+	return c
+}
+
+func TestC01_HashEnvelope(t *testing.T) {
+	begin(t, "C01", "hashenv")
+	prop(t, func(rt *rapid.T) {
+		c := genHashCase(rt, constructedHdrOpts())
+		stats.Eval()
+		judge(rt, "c01hash", c, checkC01Hash)
+	})
+}
+
+// classifyCsigParents counts countersignatures by parent kind and form.
+func classifyCsigParents(spec *gen.MsgSpec) {
+	var walk func(gs []gen.CsigGroup, parent string)
+	walk = func(gs []gen.CsigGroup, parent string) {
+		for _, g := range gs {
+			form := "full"
+			if g.Abbrev() {
+				form = "abbreviated"
+			}
+			stats.ClassN("csig/"+parent+"/"+form, len(g.Items))
+			for _, c := range g.Items {
+				walk(c.Groups, "Countersignature")
+			}
+		}
+	}
+	top := "Sign1"
+	if spec.Kind == refcose.KSign {
+		top = "Sign"
+	}
+	walk(spec.Groups, top)
+	if spec.Kind == refcose.KSign {
+		for _, s := range spec.Sigs {
+			walk(s.Groups, "Signature")
+		}
+	}
 }
